@@ -128,9 +128,9 @@ theorem applyOp_frame (tb : TB) (name : Bytes) (op : FieldOp) (chk : Checker) (j
   | i64 i => simp only [applyOp, setInt64]; split; exact apply_frame (insShape_bput _ _ _) j hj; rfl
   | f64 b => simp only [applyOp, setFloat64]; split; exact apply_frame (insShape_bput _ _ _) j hj; rfl
   | bool b => simp only [applyOp, setBool]; split; exact apply_frame (insShape_bput _ _ _) j hj; rfl
-  | time p => simp only [applyOp, setTime]; split; exact setTyped_frame _ _ _ _ j hj; rfl
+  | time p => simp only [applyOp, setTime, timePayload_eq]; split; exact setTyped_frame _ _ _ _ j hj; rfl
   | timeP p =>
-    simp only [applyOp, setTimeP]; split
+    simp only [applyOp, setTimeP, timePayload_eq]; split
     · cases p with
       | none => exact setNil_frame _ _ j hj
       | some v => exact setTyped_frame _ _ _ _ j hj
